@@ -4,23 +4,31 @@
 # change compiles, passes the existing suite (only the 3 always-failing tests fail), and that
 # the demonstration fails with the change and passes without it.  Writes <dir>/confirm.txt.
 set -u
-dir="$1"; name="$2"
+dir="$1"; name="$2"; where="${3:-unit}"
 wt=/tmp/confirm_wt
 if [ ! -d "$wt" ]; then git -C /repo worktree add -q "$wt" HEAD || exit 2; fi
-cd "$wt" && git checkout -q -- . && git clean -fdq tests/unit/src/tests && git reset -q --hard "$(git -C /repo rev-parse HEAD)"
+cd "$wt" && git checkout -q -- . && git clean -fdq tests/unit/src/tests tests/integration/tests && git reset -q --hard "$(git -C /repo rev-parse HEAD)"
 mkdir -p tests/unit/target tests/integration/target
 mod="seed_${name}"
-cp "$dir/demo.rs" "tests/unit/src/tests/${mod}.rs"
-grep -q "mod ${mod};" tests/unit/src/tests/mod.rs || echo "mod ${mod};" >> tests/unit/src/tests/mod.rs
+if [ "$where" = "unit" ]; then
+  cp "$dir/demo.rs" "tests/unit/src/tests/${mod}.rs"
+  grep -q "mod ${mod};" tests/unit/src/tests/mod.rs || echo "mod ${mod};" >> tests/unit/src/tests/mod.rs
+  pkg="sos-unit-tests"; extra=""
+else
+  sub="${where#integration:}"
+  cp "$dir/demo.rs" "tests/integration/tests/${sub}/${mod}.rs"
+  grep -q "mod ${mod};" "tests/integration/tests/${sub}/mod.rs" || echo "mod ${mod};" >> "tests/integration/tests/${sub}/mod.rs"
+  pkg="sos-integration-tests"; extra="--test main"
+fi
 out="$dir/confirm.txt"; : > "$out"
 # 1. demo on the unchanged tree: must pass
-cargo test -p sos-unit-tests --offline -- "${mod}" > /tmp/confirm_demo0.log 2>&1
+cargo test -p $pkg --offline $extra -- "${mod}" > /tmp/confirm_demo0.log 2>&1
 echo "demo-without-change: rc=$? $(grep -E '^test result' /tmp/confirm_demo0.log | head -1)" >> "$out"
 # 2. with the change: build + full existing suite + demo
 git apply "$dir/patch.diff" || { echo "patch-does-not-apply" >> "$out"; exit 2; }
 cargo nextest run --workspace --no-fail-fast --offline --test-threads 8 > /tmp/confirm_suite.log 2>&1
 echo "suite-with-change: $(grep -E 'Summary' /tmp/confirm_suite.log)" >> "$out"
 grep -E '^\s+FAIL' /tmp/confirm_suite.log | sort -u | sed 's/^/  /' >> "$out"
-git checkout -q -- . ; git clean -fdq tests/unit/src/tests; git reset -q --hard
+git checkout -q -- . ; git clean -fdq tests/unit/src/tests tests/integration/tests; git reset -q --hard
 echo "done" >> "$out"
 cat "$out"
